@@ -54,6 +54,11 @@ def _tnames(prog, module, node):
     elts = node.elts if isinstance(node, ast.Tuple) else [node]
     out = []
     for e in elts:
+        if isinstance(e, ast.Call) and isinstance(e.func, ast.Name) and \
+                e.func.id == 'type' and len(e.args) == 1 and isinstance(
+                    e.args[0], ast.Constant) and e.args[0].value is None:
+            out.append('NoneType')
+            continue
         r = prog.resolve(module, e) if prog is not None else None
         if r is None:
             return None
